@@ -607,6 +607,21 @@ int main(int argc, char** argv)
       };
       rep.phase("structured sparse matrices, dimension 8..40", (uint64_t)3 * 3 * 8 * 4 * seeds, [&](uint64_t idx, int, Ctx & c) { return run_big(specOf(idx), c); },
       [&](uint64_t idx, uint64_t) { return specOf(idx).str(); }, o, sfx);
+      // fill-in sub-family: the relocation / compaction code of the column and row files only runs when the working matrix outgrows its
+      // initial allocation (5 x nonzeros), which needs a large non-triangular nucleus: pattern 0 with 4..8 off-diagonals per row, every
+      // even dimension from 24 to 40, nonsingular members only
+      const int fseeds = thorough ? 16 : 5;
+      auto fillOf = [=](uint64_t idx)
+      {
+         BigSpec b;
+         b.pattern = 0; b.singular = 0;
+         b.k = 4 + (int)(idx % 5); idx /= 5;
+         b.n = 24 + 2 * (int)(idx % 9); idx /= 9;
+         b.seed = 100 + (int)idx;
+         return b;
+      };
+      rep.phase("fill-in family: diagonal + 4..8 off-diagonals per row, dimension 24..40", (uint64_t)5 * 9 * fseeds, [&](uint64_t idx, int, Ctx & c) { return run_big(fillOf(idx), c); },
+      [&](uint64_t idx, uint64_t) { return fillOf(idx).str(); }, o, sfx);
       rep.extra["big_grid"] = jstr("patterns diag+k-offdiagonals / band+far / arrow+random / dense bump; n in {8,12,16,20,26,30,34,40}; k in {3,5,8}; nonsingular, dependent last column, duplicate row; seeds 0.." + std::to_string(seeds - 1));
    }
    // part B
